@@ -306,8 +306,19 @@ fn const_json<'tcx>(tcx: TyCtxt<'tcx>, c: &Const<'tcx>, env: TypingEnv<'tcx>) ->
         }
         Const::Ty(_, ct) => {
             o.set("c", J::s("tyconst"));
-            if let Some(v) = ct.try_to_target_usize(tcx) {
-                o.set("v", J::s(v.to_string()));
+            if let Some(v) = ct.try_to_value() {
+                if let Some(bytes) = v.try_to_raw_bytes(tcx) {
+                    if let ty::Ref(_, inner, _) = ty.kind() {
+                        if inner.is_str() {
+                            o.set("c", J::s("slice"));
+                            o.set("bytes", J::Arr(bytes.iter().map(|b| J::Num(*b as i128)).collect()));
+                        }
+                    }
+                } else if let Some(si) = ct.try_to_leaf() {
+                    o.set("c", J::s("scalar"));
+                    let size = si.size().bytes();
+                    o.set("v", scalar_int_json(tcx, ty, si.to_bits(si.size()), size));
+                }
             }
         }
     }
